@@ -37,7 +37,7 @@ Proof. intros t ly d bs H. unfold raw_obj_w. rewrite (engine_w_bytes ly d bs H).
 (* and, by the generic length-block lemma of Psd/Codec.v, the item is read back whole and parses to the tree *)
 Theorem raw_item_roundtrip : forall d bs blk n rest, wf_tree (TDict d) = true ->
   raw_obj_w Indented d = Ok (blk, n) ->
-  exists body, read_length_block 0 4 1 (blk ++ rest) = Ok (body, rest) /\ parse body = Ok d /\
+  exists body, read_length_block 0 4 1 (blk ++ rest) = Ok (body, rest) /\ parse body = Ok (untiny_kvs d) /\
                (write Indented d = Ok bs -> body = bs).
 Proof.
   intros d bs blk n rest W H.
@@ -161,18 +161,18 @@ Qed.
 (* ====================================================================== the theorem *)
 (* A type-tool block whose text descriptor holds, under "EngineData", the bytes written for a well-formed tree d
    (indented layout):  - re-reading the written block gives the same block, with the engine data parsed and exposed
-   as exactly d;  - the object exposed writes, inside RawData, the very item the bytes would write
+   as exactly d (decimals to 8 places: [untiny_kvs d], which is d when no decimal is tiny);  - the object exposed writes, inside RawData, the very item the bytes would write
    (raw_object_writes_as_bytes), so writing the re-read block again gives the same block bytes. *)
 Theorem type_tool_engine_data_roundtrip : forall units t pad x d bs blk n rest,
   wf_terms t = true -> wf_tysh units x = true ->
   wf_tree (TDict d) = true -> write Indented d = Ok bs -> find_raw (text_items (ty_text x)) = Some bs ->
   write_tysh t pad x = Ok (blk, n) ->
-  read_tysh units t (blk ++ rest) = Ok (x, Some d) /\
+  read_tysh units t (blk ++ rest) = Ok (x, Some (untiny_kvs d)) /\
   raw_obj_w Indented d = write_dval t (DRaw OS_tdta bs) /\
   (forall x' e, read_tysh units t (blk ++ rest) = Ok (x', e) -> write_tysh t pad x' = Ok (blk, n)).
 Proof.
   intros units t pad x d bs blk n rest Ht Hwf W HW HF H.
-  assert (R : read_tysh units t (blk ++ rest) = Ok (x, Some d)).
+  assert (R : read_tysh units t (blk ++ rest) = Ok (x, Some (untiny_kvs d))).
   { rewrite (tysh_roundtrip units t pad x blk n rest Ht Hwf H). unfold expose. rewrite HF.
     destruct (parse_write_indented d W) as (bs' & H1 & H2). rewrite HW in H1. inversion H1; subst bs'.
     rewrite H2. reflexivity. }
@@ -186,10 +186,10 @@ Theorem type_tool_block_roundtrip : forall units t v pad sg key x d bs blk n res
   wf_terms t = true -> wf_tysh units x = true ->
   wf_tree (TDict d) = true -> write Indented d = Ok bs -> find_raw (text_items (ty_text x)) = Some bs ->
   write_payload_block v pad sg key (write_tysh t 4 x) = Ok (blk, n) ->
-  read_payload_block (read_tysh units t) v pad (blk ++ rest) = Ok (Some (sg, key, (x, Some d), rest)).
+  read_payload_block (read_tysh units t) v pad (blk ++ rest) = Ok (Some (sg, key, (x, Some (untiny_kvs d)), rest)).
 Proof.
   intros units t v pad sg key x d bs blk n rest Hpad Hsg Ht Hwf W HW HF H.
-  apply (payload_block_rt v pad sg key (write_tysh t 4 x) (read_tysh units t) (x, Some d) blk n rest Hpad Hsg
+  apply (payload_block_rt v pad sg key (write_tysh t 4 x) (read_tysh units t) (x, Some (untiny_kvs d)) blk n rest Hpad Hsg
            (wtruth_tysh t 4 x)); [|exact H].
   intros body m Hb. rewrite <- (app_nil_r body).
   apply (type_tool_engine_data_roundtrip units t 4 x d bs body m [] Ht Hwf W HW HF Hb).
